@@ -18,8 +18,8 @@ RULE = ("real threads (2..3 submitters x 3..4 submissions with sources owned by 
 
 
 def generate(rnd, tier):
-    n = 1500 if tier == "quick" else 20000
-    return [{"op": "threads", "seed": rnd.randrange(10 ** 9), "nsub": rnd.choice([2, 2, 3]), "per": rnd.choice([3, 4, 5]), "policy": rnd.choice(["random", "pause", "pause", "pct"])} for _ in range(n)]
+    n = 6000 if tier == "quick" else 40000
+    return [{"op": "threads", "seed": rnd.randrange(10 ** 9), "nsub": rnd.choice([2, 2, 3]), "per": rnd.choice([3, 4, 5]), "policy": rnd.choice(["random", "pause", "pause", "pct", "pause_main", "pause_main"]), "partial": rnd.random() < 0.5} for _ in range(n)]
 
 
 def run_impl(case):
